@@ -152,12 +152,14 @@ pub(super) mod udp {
     pub struct DatagramPacketCodec<'a, const N: usize> {
         codec: SessionCodec<'a, N>,
         session: Session<N>,
-        filter: PacketWindowFilter,
+        /// `None` for ciphers whose datagrams carry no packet id
+        filter: Option<PacketWindowFilter>,
     }
 
     impl<const N: usize> DatagramPacketCodec<'_, N> {
         pub fn new(codec: SessionCodec<N>) -> DatagramPacketCodec<'_, N> {
-            DatagramPacketCodec { codec, session: Session::from(Mode::Client), filter: PacketWindowFilter::default() }
+            let filter = codec.has_packet_id().then(PacketWindowFilter::default);
+            DatagramPacketCodec { codec, session: Session::from(Mode::Client), filter }
         }
     }
 
@@ -202,7 +204,7 @@ pub(super) mod udp {
             } else {
                 match self.codec.decode(src)? {
                     Some((content, addr, session)) => {
-                        if !self.filter.validate_packet_id(session.packet_id, u64::MAX) {
+                        if self.filter.as_mut().is_some_and(|filter| !filter.validate_packet_id(session.packet_id, u64::MAX)) {
                             bail!("[udp] packet_id out of window; session={}", session)
                         }
                         self.session.server_session_id = session.server_session_id;
